@@ -348,6 +348,80 @@ fn run_real(job: &Job) -> Result<(), String> {
     check_output(job, &out).map(|_| ())
 }
 
+// ---------------------------------------------------------------------------
+// Protocol model (TLA+, /verif/model/MergeRound.tla) and its binding to the code
+// ---------------------------------------------------------------------------
+
+/// From one execution's union trace: for every round r the order in which
+/// main received the result files of that round (as 1-based item numbers).
+fn rounds_of(grouping: &str) -> Vec<Vec<usize>> {
+    // "union g0b1:batch2+batch0" ...
+    let mut per_gen: BTreeMap<usize, BTreeMap<usize, Vec<usize>>> = BTreeMap::new();
+    for part in grouping.split("union ").filter(|p| !p.trim().is_empty()) {
+        let part = part.trim();
+        let (head, inputs) = match part.split_once(':') {
+            Some(x) => x,
+            None => continue,
+        };
+        let (g, b) = match head[1..].split_once('b') {
+            Some(x) => x,
+            None => continue,
+        };
+        let (g, b): (usize, usize) = (g.parse().unwrap_or(0), b.parse().unwrap_or(0));
+        let items: Vec<usize> = inputs
+            .split('+')
+            .map(|name| name.rsplit("batch").next().unwrap_or("0").parse::<usize>().unwrap_or(0) + 1)
+            .collect();
+        per_gen.entry(g).or_default().insert(b, items);
+    }
+    per_gen.values().map(|m| m.values().flatten().cloned().collect()).collect()
+}
+
+/// Reachable final result orders of the model for (n items, w workers, cap).
+fn model_perms(n: usize, w: usize, cap: usize) -> Result<(BTreeSet<Vec<usize>>, u64), String> {
+    let dir = format!("{}/tlc-{}-{}-{}-{}", workdir(), n, w, cap, std::process::id());
+    std::fs::create_dir_all(&dir).map_err(|e| e.to_string())?;
+    let model_dir = format!("{}/model", ev::verif_dir());
+    std::fs::copy(format!("{}/MergeRound.tla", model_dir), format!("{}/MergeRound.tla", dir)).map_err(|e| format!("machinery: model file: {}", e))?;
+    std::fs::write(
+        format!("{}/MergeRound.cfg", dir),
+        format!("SPECIFICATION Spec\nCONSTANTS N = {}\n W = {}\n Cap = {}\nINVARIANTS TypeOK Complete NoDup\nCHECK_DEADLOCK TRUE\n", n, w, cap),
+    )
+    .map_err(|e| e.to_string())?;
+    let o = std::process::Command::new("tlc")
+        .current_dir(&dir)
+        .args(["-workers", "2", "-dump", "states", "MergeRound.tla"])
+        .output()
+        .map_err(|e| format!("machinery: cannot run tlc: {}", e))?;
+    let out = String::from_utf8_lossy(&o.stdout).to_string();
+    if !out.contains("No error has been found") {
+        let _ = std::fs::remove_dir_all(&dir);
+        return Err(format!("TLC reports a problem for N={} W={} Cap={}: {}", n, w, cap, out.lines().filter(|l| l.contains("Error") || l.contains("violated") || l.contains("Deadlock")).collect::<Vec<_>>().join(" | ")));
+    }
+    let distinct: u64 = out
+        .lines()
+        .find(|l| l.contains("distinct states found"))
+        .and_then(|l| l.split(" states generated, ").nth(1))
+        .and_then(|r| r.split(' ').next())
+        .and_then(|x| x.replace(',', "").parse().ok())
+        .unwrap_or(0);
+    let dump = std::fs::read_to_string(format!("{}/states.dump", dir)).map_err(|e| format!("machinery: tlc dump: {}", e))?;
+    let mut perms = BTreeSet::new();
+    for st in dump.split("\nState ") {
+        if st.contains("mpc = \"done\"") {
+            if let Some(i) = st.find("results = <<") {
+                let rest = &st[i + 12..];
+                if let Some(j) = rest.find(">>") {
+                    let v: Vec<usize> = rest[..j].split(',').filter_map(|x| x.trim().parse().ok()).collect();
+                    perms.insert(v);
+                }
+            }
+        }
+    }
+    let _ = std::fs::remove_dir_all(&dir);
+    Ok((perms, distinct))
+}
+
 fn result_json(r: &JobResult) -> Value {
     json!({
         "states": r.states, "execs": r.execs, "complete": r.complete, "pruned": r.pruned, "steps": r.steps,
@@ -629,6 +703,7 @@ fn main() {
     let mut results = results.into_inner().unwrap();
     results.sort_by_key(|x| x.0);
     let mut table = vec![];
+    let mut explored: Vec<(Job, Vec<String>, bool)> = vec![];
     let mut grid_wall = 0.0f64;
     let mut all_groupings: BTreeSet<String> = BTreeSet::new();
     for (i, r) in results {
@@ -655,6 +730,7 @@ fn main() {
             st.count("executions_started", v["execs"].as_u64().unwrap_or(0));
             st.count("executions_pruned_by_state_cache", v["pruned"].as_u64().unwrap_or(0));
             if job.explore {
+                explored.push((job.clone(), v["groupings"].as_array().unwrap_or(&vec![]).iter().map(|x| x.as_str().unwrap_or("").to_string()).collect(), !capped && v["violation"].is_null()));
                 st.nontrivial += v["states"].as_u64().unwrap_or(0);
                 st.max("max_choice_points_in_one_execution", v["max_choice_points"].as_u64().unwrap_or(0));
                 st.max("max_threads_in_one_execution", v["max_threads"].as_u64().unwrap_or(0));
@@ -675,6 +751,78 @@ fn main() {
             }
         }
     }
+    // ---- (1b) protocol model: conformance with the explored configurations
+    // and model checking of larger ones
+    let mut conformance = vec![];
+    let mut model_ok = true;
+    {
+        std::fs::create_dir_all(workdir()).unwrap();
+        // observed result orders per (N, W, Cap), only from exhausted explorations
+        let mut observed: BTreeMap<(usize, usize, usize), BTreeSet<Vec<usize>>> = BTreeMap::new();
+        for (job, groupings, exhausted) in &explored {
+            if !*exhausted {
+                continue;
+            }
+            let w = job.threads as usize;
+            let cap = std::cmp::min(1, w / 3);
+            for g in groupings {
+                for round in rounds_of(g) {
+                    if round.len() >= 2 {
+                        observed.entry((round.len(), w, cap)).or_default().insert(round);
+                    }
+                }
+            }
+        }
+        for ((n, w, cap), imp) in &observed {
+            match model_perms(*n, *w, *cap) {
+                Ok((model, states)) => {
+                    let equal = &model == imp;
+                    st.count("model_outcomes_matched_against_impl", model.intersection(imp).count() as u64);
+                    st.states += states;
+                    conformance.push(json!({"N": n, "W": w, "Cap": cap, "model_states": states, "model_final_orders": model.len(), "impl_final_orders": imp.len(), "equal": equal}));
+                    if !equal {
+                        model_ok = false;
+                        eprintln!("note: protocol model and code disagree on the reachable result orders for N={} W={} Cap={}: model {:?} code {:?}", n, w, cap, model, imp);
+                    }
+                }
+                Err(e) => {
+                    if e.starts_with("machinery") {
+                        eprintln!("{}", e);
+                        std::process::exit(2);
+                    }
+                    model_ok = false;
+                    eprintln!("note: {}", e);
+                }
+            }
+        }
+        // larger configurations: model only (deadlock freedom, nothing lost or duplicated)
+        let larger: Vec<(usize, usize, usize)> = if tier == Tier::Thorough { vec![(6, 3, 1), (5, 4, 1), (7, 2, 0), (8, 3, 1), (6, 5, 1)] } else { vec![(5, 3, 1), (6, 2, 0)] };
+        if model_ok {
+            for (n, w, cap) in larger {
+                match model_perms(n, w, cap) {
+                    Ok((model, states)) => {
+                        st.states += states;
+                        st.count("model_only_configurations", 1);
+                        conformance.push(json!({"N": n, "W": w, "Cap": cap, "model_states": states, "model_final_orders": model.len(), "model_only": true}));
+                    }
+                    Err(e) => {
+                        if e.starts_with("machinery") {
+                            eprintln!("{}", e);
+                            std::process::exit(2);
+                        }
+                        rep.violation(format!("protocol model N={} W={} Cap={}", n, w, cap), e, json!({"job": null, "schedule": [], "model": [n, w, cap]}));
+                    }
+                }
+            }
+        }
+        let e = scopes.entry("protocol-model-MergeRound.tla (TLC): conformance on explored rounds + larger rounds".into()).or_insert((0, 0));
+        e.1 += 1;
+        if model_ok {
+            e.0 += 1;
+        }
+        let _ = std::fs::remove_dir_all(workdir());
+    }
+    st.samples.push(json!({"protocol_model": conformance}));
     st.count("distinct_union_groupings_overall", all_groupings.len() as u64);
     st.count("grid_cpu_seconds", grid_wall as u64);
     st.samples.push(json!({"schedule_exploration": table}));
@@ -730,6 +878,7 @@ fn main() {
             "threads of merge.rs interact only through the channels (immutable Arcs otherwise); files are written by one batch and read only in later generations; checked by the unique-file-name trace".into(),
             "two prefixes with equal per-thread histories (incl. identities of received messages) are the same Mazurkiewicz trace and have the same futures".into(),
             "fd-limit 1, --threads 0, I/O errors and --tmp-dir are outside the contract".into(),
+            "protocol model (model/MergeRound.tla, one generation of the pipeline, one action per scheduling point) is bound to the code by outcome conformance: for every round (N items, W workers, channel capacity) of every exhausted exploration the set of result orders reachable in the model (TLC state dump) equals the set observed in the code; the model is then checked alone (TLC: deadlock freedom, nothing lost or duplicated) for larger rounds".into(),
         ],
         true,
         extra,
